@@ -25,14 +25,16 @@ def gen(w, rng, tier):
     return []
 
 
-def consumer_source(feature, tables, dump_types, std, serde):
+def consumer_source(feature, tables, dump_types, std, serde, dec=False):
     by_name = {t["name"]: t for t in dump_types}
     mods = {it["name"]: it for it in tables["catalogue"]}
     lines = ["#![allow(unused, non_snake_case)]"]
     if not std:
         lines.insert(0, "#![no_std]")
     lines.append("use quantities::prelude::*;")
-    body = ["    let _p = quantities::SIPrefix::KILO;", "    let _one: AmountT = Amnt!(1) * quantities::ONE;"]
+    body = ["    let _p = quantities::SIPrefix::KILO;", "    let _one: AmountT = Amnt!(1) * quantities::ONE;",
+            # the amount type is the one the configuration asks for
+            ("    let _t: quantities::Decimal = quantities::AMNT_ONE;" if dec else "    let _t: f64 = quantities::AMNT_ONE;")]
     feats = FEATURES if feature == "all" else ([] if feature == "none" else [feature])
     used = 0
     for f in feats:
@@ -89,7 +91,7 @@ def run_config(root, worker, cfg, tables, dump_types):
     feature, std, dec, serde = cfg
     feats = (FEATURES if feature == "all" else ([] if feature == "none" else [feature]))
     qf = list(feats) + (["std"] if std else []) + (["fpdec"] if dec else []) + (["serde"] if serde else [])
-    src = consumer_source(feature, tables, dump_types, std, serde)
+    src = consumer_source(feature, tables, dump_types, std, serde, dec)
     name = f"c19_{feature}_{int(std)}{int(dec)}{int(serde)}"
     extra = 'serde = { version = "1" }\n' if serde else ""
     d = cc.make_crate(root, name, src, qf, default_features=False, extra_deps=extra)
@@ -143,7 +145,7 @@ def extra(tier, seed):
             mods_needed = [feat]
             gen_harness.write_variant(pl.VERIF, pl.REPO, vdir, [feat], closure_modules(tables, feat))
             env = dict(pl.ENV, CARGO_TARGET_DIR=os.path.join(pl.CACHE, "target-gen-c19-min"), RUSTFLAGS="-Awarnings")
-            hf = "serde" + (",temp" if feat == "temperature" else "")
+            hf = "serde" + (",temp" if feat == "temperature" else "")   # serde on: same as the full harness
             p = subprocess.run(["cargo", "build", "--features", hf, "--message-format=short"], cwd=vdir, env=env,
                                stdout=subprocess.PIPE, stderr=subprocess.STDOUT, text=True, timeout=3600)
             if p.returncode != 0:
